@@ -1,14 +1,122 @@
 /-
   SpecKitV.Drv.ExtFftNoise — driver operations of the generated region `FftNoise` (extension point: `dispatch op` returns
   `some handler` for the operations this file serves).  Mathlib-free.
+
+  Everything here executes the GENERATED definitions of Gen/FftNoise.lean (regenerated from speckit/noise.py on every run) at
+  `Float`, or one of the NumPy contracts of Np/FftNoise.lean on its own (`np*` operations), for the differential run of C18.
+    genfftspec  <cx f> <u>                 → `rej n re im …`    Gen.fftnoise_rejects, Gen.fftnoise_spectrum (the array handed to ifft)
+    genfftnoise <cx f> <u>                 → `n x…`             Gen.fftnoise (series; NpFN.ifft is O(N²): small N only)
+    genband     lo hi N fs                 → `rej n re im …`    Gen.band_limited_noise_rejects / _spectrum (the array handed to fftnoise)
+    genbandnoise lo hi N fs <u>            → `n x…`             Gen.band_limited_noise (series, small N only)
+    genalpha    fs fmin fmax alpha         → `rej num | fs alpha fmin fmax scaling | a (n×2) | b (n×2) | lo… | hi…`
+    genwhite    fs psd                     → `fs rms`
+    npfftfreq n d, npifft <cx F>, npslice n <start|none> <stop|none> step
 -/
 import SpecKitV.Drv.Base
+import SpecKitV.Gen.FftNoise
 
 namespace Drv.ExtFftNoise
 open Drv
 
+def cxArr : M (Arr (Cx Float)) := do
+  let n ← nat
+  let mut a : Array (Cx Float) := Array.mkEmpty n
+  for _ in [0:n] do
+    let re ← flt
+    let im ← flt
+    a := a.push ⟨re, im⟩
+  return ⟨a.size, fun i => a.getD i ⟨nan, nan⟩⟩
+
+def fmtCx (a : Arr (Cx Float)) : String :=
+  s!"{a.n}" ++ String.join ((List.range a.n).map (fun k => s!" {fmt (a.get k).re} {fmt (a.get k).im}"))
+
+def fmtArr (a : Arr Float) : String :=
+  s!"{a.n}" ++ String.join ((List.range a.n).map (fun k => s!" {fmt (a.get k)}"))
+
+def fmtA2 (a : Arr2 Float) : String :=
+  s!"{a.n} {a.m}" ++ String.join ((List.range a.n).map (fun i => String.join ((List.range a.m).map (fun j => s!" {fmt (a.get i j)}"))))
+
+def b01 (b : Bool) : String := if b then "1" else "0"
+
+def optInt : M (Option Int) := do
+  let t ← tok
+  if t == "none" then return none
+  match t.toInt? with
+  | some v => return some v
+  | none => throw s!"optint:{t}"
+
+def opGenFftSpec : M String := do
+  let f ← cxArr
+  let u := fnF (← fltArr)
+  let rej := Gen.fftnoise_rejects f u
+  return s!"{b01 rej} " ++ fmtCx (Gen.fftnoise_spectrum f u)
+
+def opGenFftNoise : M String := do
+  let f ← cxArr
+  let u := fnF (← fltArr)
+  return fmtArr (Gen.fftnoise f u)
+
+def opGenBand : M String := do
+  let lo ← flt
+  let hi ← flt
+  let N ← int
+  let fs ← flt
+  let u : Nat → Float := fun _ => nan
+  let rej := Gen.band_limited_noise_rejects lo hi N fs u
+  return s!"{b01 rej} " ++ fmtCx (Gen.band_limited_noise_spectrum lo hi N fs u)
+
+def opGenBandNoise : M String := do
+  let lo ← flt
+  let hi ← flt
+  let N ← int
+  let fs ← flt
+  let u := fnF (← fltArr)
+  return fmtArr (Gen.band_limited_noise lo hi N fs u)
+
+def opGenAlpha : M String := do
+  let fs ← flt
+  let fmin ← flt
+  let fmax ← flt
+  let alpha ← flt
+  let rej := Gen.alpha_noise_init_rejects fs fmin fmax alpha
+  let (fs', al', num, gmin, gmax, sc, a, b, lo, hi) := Gen.alpha_noise_init fs fmin fmax alpha
+  return s!"{b01 rej} {num} | {fmt fs'} {fmt al'} {fmt gmin} {fmt gmax} {fmt sc} | " ++ fmtA2 a ++ " | " ++ fmtA2 b
+    ++ " | " ++ fmtArr lo ++ " | " ++ fmtArr hi
+
+def opGenWhite : M String := do
+  let fs ← flt
+  let psd ← flt
+  let (fs', rms) := Gen.white_noise_init fs psd
+  return s!"{fmt fs'} {fmt rms}"
+
+def opNpFftfreq : M String := do
+  let n ← nat
+  let d ← flt
+  return fmtArr (NpFN.fftfreq n d)
+
+def opNpIfft : M String := do
+  let F ← cxArr
+  return fmtCx (NpFN.ifft F)
+
+def opNpSlice : M String := do
+  let n ← nat
+  let a ← optInt
+  let b ← optInt
+  let st ← int
+  let s := NpFN.pySlice n a b st
+  return s!"{s.start} {s.step} {s.len}"
+
 def dispatch (op : String) : Option (M String) :=
   match op with
+  | "genfftspec" => some opGenFftSpec
+  | "genfftnoise" => some opGenFftNoise
+  | "genband" => some opGenBand
+  | "genbandnoise" => some opGenBandNoise
+  | "genalpha" => some opGenAlpha
+  | "genwhite" => some opGenWhite
+  | "npfftfreq" => some opNpFftfreq
+  | "npifft" => some opNpIfft
+  | "npslice" => some opNpSlice
   | _ => none
 
 end Drv.ExtFftNoise
